@@ -277,3 +277,9 @@ package fsnotify
 // (spec helpers over the raw read buffer, the same as in the assumed contract of Read)
 //@ def recMask(b []byte, o uint32) := le32(b, uint64(o) + 4)
 //@ def recWd(b []byte, o uint32) := le32(b, uint64(o))
+
+//@ func (w *inotify) xSupports(op Op) (r bool)
+//@   ensures r                                                                  [C15] "inotify supports every operation"
+
+//@ lemma forall(o, Op, forall(nf, bool, specOpInotify(requestInotify(o, nf)) & (o & 0x1ff) == o & 0x1ff))     [C15] "none of the requested operations is left unobservable by the flags subscribed for it"
+//@ lemma forall(nf, bool, requestInotify(0, nf) & ^uint32(unix.IN_DONT_FOLLOW) == 0)                           [C15] "no flag is requested when no operation is"
